@@ -71,11 +71,13 @@ def _tlc(wd, tier, rep):
         return json.load(fh), res
 
 
-def emission(wd_name="C08-emit", ltree=12):
-    """Run TLC on Harmonics.tla and return the emitted trees (used by C02 / C09 for calibration)."""
+def emission(wd_name="C08-emit", ltree=12, lexact=4):
+    """Run TLC on Harmonics.tla (all identities, smaller lattice degree) and return the emitted
+    trees - used by C02 / C09 to calibrate vf/ylm.py before it serves as their oracle."""
     wd = tlc.scratch(wd_name)
     cfg = wd / "MC_Harmonics_run.cfg"
     base = (tlc.SPEC / "MC_Harmonics.cfg").read_text().replace("LTree = 12", f"LTree = {ltree}")
+    base = base.replace("LExact = 6", f"LExact = {lexact}").replace("LRow = 80", f"LRow = {max(ltree, 12)}")
     cfg.write_text(base)
     res = tlc.run_tlc("Harmonics", cfg, wd, workers=8, timeout=900).require_ok("MC_Harmonics")
     if res.status != "ok":
